@@ -185,11 +185,17 @@ func verifC08ImpliedIntentions(serviceAccess string) string {
 	return "deny"
 }
 
+type verifC08Slot struct {
+	kind   string
+	prefix bool
+	name   string
+}
+
 type verifC08Model struct {
 	exact  map[string]map[string]string // kind -> name -> merged access
 	prefix map[string]map[string]string
 	scalar map[string]string
-	mixed  map[string]bool // "kind/e|p/name" and scalar names for which different levels were merged (signature detail only)
+	mixed  map[verifC08Slot]bool // slots (and scalars, kind "") for which different levels were merged (signature detail only)
 }
 
 // verifC08NewModel merges the rules of all policies. intentionsPerRule selects the reading used for a service
@@ -197,7 +203,7 @@ type verifC08Model struct {
 // levels merge, the implied level applies only when no rule states one; true = every rule contributes its
 // effective (explicit or implied) level to the precedence merge.
 func verifC08NewModel(ps []verifC08Policy, intentionsPerRule bool) *verifC08Model {
-	m := &verifC08Model{exact: map[string]map[string]string{}, prefix: map[string]map[string]string{}, scalar: map[string]string{}, mixed: map[string]bool{}}
+	m := &verifC08Model{exact: map[string]map[string]string{}, prefix: map[string]map[string]string{}, scalar: map[string]string{}, mixed: map[verifC08Slot]bool{}}
 	slot := func(r verifC08Rule, kind string) map[string]string {
 		top := m.exact
 		if r.Prefix {
@@ -208,14 +214,14 @@ func verifC08NewModel(ps []verifC08Policy, intentionsPerRule bool) *verifC08Mode
 		}
 		return top[kind]
 	}
-	explicit := map[[2]string]string{} // (p|e, name) -> merged explicit intentions
+	explicit := map[verifC08Slot]string{} // slot -> merged explicit intentions
 	for _, p := range ps {
 		for _, r := range p.Rules {
 			s := slot(r, r.Kind)
 			if s[r.Name] != "" && s[r.Name] != r.Access {
-				m.mixed[fmt.Sprintf("%s/%v/%s", r.Kind, r.Prefix, r.Name)] = true
+				m.mixed[verifC08Slot{r.Kind, r.Prefix, r.Name}] = true
 				if r.Kind == "service" {
-					m.mixed[fmt.Sprintf("intention/%v/%s", r.Prefix, r.Name)] = true
+					m.mixed[verifC08Slot{"intention", r.Prefix, r.Name}] = true
 				}
 			}
 			s[r.Name] = verifC08Stronger(s[r.Name], r.Access)
@@ -228,7 +234,7 @@ func verifC08NewModel(ps []verifC08Policy, intentionsPerRule bool) *verifC08Mode
 					}
 					is[r.Name] = verifC08Stronger(is[r.Name], eff)
 				} else {
-					k := [2]string{fmt.Sprint(r.Prefix), r.Name}
+					k := verifC08Slot{"", r.Prefix, r.Name}
 					explicit[k] = verifC08Stronger(explicit[k], r.Intentions)
 					is[r.Name] = "" // filled below
 				}
@@ -236,7 +242,7 @@ func verifC08NewModel(ps []verifC08Policy, intentionsPerRule bool) *verifC08Mode
 		}
 		for k, v := range p.Scalars {
 			if m.scalar[k] != "" && m.scalar[k] != v {
-				m.mixed[k] = true
+				m.mixed[verifC08Slot{"", false, k}] = true
 			}
 			m.scalar[k] = verifC08Stronger(m.scalar[k], v)
 		}
@@ -248,7 +254,7 @@ func verifC08NewModel(ps []verifC08Policy, intentionsPerRule bool) *verifC08Mode
 				top = m.prefix
 			}
 			for name := range top["intention"] {
-				if e := explicit[[2]string{fmt.Sprint(pfx), name}]; e != "" {
+				if e := explicit[verifC08Slot{"", pfx, name}]; e != "" {
 					top["intention"][name] = e
 				} else {
 					top["intention"][name] = verifC08ImpliedIntentions(top["service"][name])
@@ -262,7 +268,7 @@ func verifC08NewModel(ps []verifC08Policy, intentionsPerRule bool) *verifC08Mode
 // find: the rule that decides a name — the exact rule, else the longest prefix rule, else none.
 func (m *verifC08Model) find(kind, name string) (access, clause string) {
 	if a, ok := m.exact[kind][name]; ok {
-		if m.mixed[fmt.Sprintf("%s/false/%s", kind, name)] {
+		if m.mixed[verifC08Slot{kind, false, name}] {
 			return a, "exact-rule-merged"
 		}
 		return a, "exact-rule"
@@ -270,7 +276,7 @@ func (m *verifC08Model) find(kind, name string) (access, clause string) {
 	a, clause := m.longestPrefix(kind, name)
 	if clause == "prefix" {
 		clause = "longest-prefix-rule"
-		if m.mixed[fmt.Sprintf("%s/true/%s", kind, m.longestPrefixName(kind, name))] {
+		if m.mixed[verifC08Slot{kind, true, m.longestPrefixName(kind, name)}] {
 			clause = "longest-prefix-rule-merged"
 		}
 	}
@@ -601,6 +607,15 @@ func verifC08Vector(a Authorizer, qs []verifC08Q) []EnforcementDecision {
 type verifC08Env struct {
 	rec *verifkit.Rec
 	qs  []verifC08Q
+	idx map[verifC08Q]int
+}
+
+func verifC08NewEnv(f verifkit.F, rec *verifkit.Rec) *verifC08Env {
+	env := &verifC08Env{rec: rec, qs: verifC08Queries(f), idx: map[verifC08Q]int{}}
+	for i, q := range env.qs {
+		env.idx[q] = i
+	}
+	return env
 }
 
 func verifC08Describe(ps []verifC08Policy) string {
@@ -708,22 +723,29 @@ func verifC08CheckSet(f verifkit.F, c *verifkit.Case, env *verifC08Env, set veri
 		return a
 	}
 
-	// (1) model vs real, undecided answers visible (raw policy authorizer)
-	raw := verifC08Vector(newAuthz(verifC08BuildAll(set.Policies)), qs)
+	// the model's answers, once per query
+	wantA := make([]EnforcementDecision, len(qs))
+	wantB := make([]EnforcementDecision, len(qs))
+	clause := make([]string, len(qs))
 	ambiguous := false
 	for i, q := range qs {
-		wantA, clause := mA.eval(q)
-		wantB, _ := mB.eval(q)
-		if wantA != wantB {
+		wantA[i], clause[i] = mA.eval(q)
+		wantB[i], _ = mB.eval(q)
+		if wantA[i] != wantB[i] {
 			ambiguous = true
-		}
-		if raw[i] != wantA && raw[i] != wantB {
-			c.Violation(f, "C08/rule-semantics/"+clause, "%s = %s, documented semantics give %s (clause %s)\npolicies: %s",
-				q, raw[i], wantA, clause, verifC08Describe(set.Policies))
 		}
 	}
 	if ambiguous {
 		c.Label("intentions=two-readings-differ(accepted-both)")
+	}
+
+	// (1) model vs real, undecided answers visible (raw policy authorizer)
+	raw := verifC08Vector(newAuthz(verifC08BuildAll(set.Policies)), qs)
+	for i, q := range qs {
+		if raw[i] != wantA[i] && raw[i] != wantB[i] {
+			c.Violation(f, "C08/rule-semantics/"+clause[i], "%s = %s, documented semantics give %s (clause %s)\npolicies: %s",
+				q, raw[i], wantA[i], clause[i], verifC08Describe(set.Policies))
+		}
 	}
 
 	// (2) with a default policy, as ResolveToken chains it
@@ -737,25 +759,21 @@ func verifC08CheckSet(f verifkit.F, c *verifkit.Case, env *verifC08Env, set veri
 			f.Fatalf("harness: NewPolicyAuthorizerWithDefaults: %v", err)
 		}
 		got := verifC08Vector(ch, qs)
-		idx := map[verifC08Q]int{}
 		for i, q := range qs {
-			idx[q] = i
-			wantA, clause := mA.eval(q)
-			wantB, _ := mB.eval(q)
-			wA, wB := verifC08Chained(wantA, q, defAllow), verifC08Chained(wantB, q, defAllow)
+			wA, wB := verifC08Chained(wantA[i], q, defAllow), verifC08Chained(wantB[i], q, defAllow)
 			if got[i] == Default {
 				c.Violation(f, "C08/default-policy/undecided", "%s stays undecided behind default policy allow=%v", q, defAllow)
 			}
 			if got[i] != wA && got[i] != wB {
-				key := "C08/rule-semantics/" + clause
-				if raw[i] == wantA || raw[i] == wantB {
-					key = "C08/default-policy/" + clause // the policy part agreed, the chaining did not
+				key := "C08/rule-semantics/" + clause[i]
+				if raw[i] == wantA[i] || raw[i] == wantB[i] {
+					key = "C08/default-policy/" + clause[i] // the policy part agreed, the chaining did not
 				}
 				c.Violation(f, key, "%s = %s behind default policy allow=%v, documented semantics give %s\npolicies: %s",
 					q, got[i], defAllow, wA, verifC08Describe(set.Policies))
 			}
 		}
-		verifC08Implications(f, c, ch, qs, got, idx, defAllow, set)
+		verifC08Implications(f, c, ch, qs, got, env.idx, defAllow, set)
 	}
 
 	// (3) permutation of the policy list
@@ -767,8 +785,7 @@ func verifC08CheckSet(f verifkit.F, c *verifkit.Case, env *verifC08Env, set veri
 		pv := verifC08Vector(newAuthz(verifC08BuildAll(perm)), qs)
 		for i, q := range qs {
 			if pv[i] != raw[i] {
-				_, clause := mA.eval(q)
-				c.Violation(f, "C08/policy-order-dependence/"+clause, "%s = %s with policies in order %v but %s in the given order\npolicies: %s",
+				c.Violation(f, "C08/policy-order-dependence/"+clause[i], "%s = %s with policies in order %v but %s in the given order\npolicies: %s",
 					q, pv[i], set.Perm, raw[i], verifC08Describe(set.Policies))
 			}
 		}
@@ -972,7 +989,7 @@ func verifC08RunSet(f verifkit.F, rec *verifkit.Rec, env *verifC08Env, set verif
 func TestVerifC08Model(t *testing.T) {
 	rec := verifC08Recorder()
 	defer rec.Flush()
-	env := &verifC08Env{rec: rec, qs: verifC08Queries(t)}
+	env := verifC08NewEnv(t, rec)
 	rec.SetExtra("acl_queries_per_authorizer", fmt.Sprint(len(env.qs)))
 	rapid.Check(t, func(t *rapid.T) {
 		verifC08RunSet(t, rec, env, verifC08GenSet(t), false)
@@ -983,7 +1000,7 @@ func TestVerifC08Model(t *testing.T) {
 func TestVerifC08Replay(t *testing.T) {
 	rec := verifC08Recorder()
 	defer rec.Flush()
-	env := &verifC08Env{rec: rec, qs: verifC08Queries(t)}
+	env := verifC08NewEnv(t, rec)
 	for _, path := range verifkit.ReplayFiles("C08") {
 		rp, err := verifkit.LoadReplay(path)
 		if err != nil {
